@@ -26,7 +26,7 @@ RULE = ('each run = generated tree with sub-Manifests, replicated twice; up to 6
         'delete, modify-same-size, modify-other-size) with mtimes placed older than / equal to / within the same '
         'second as / newer than replica A\'s previous TIMESTAMP (same-size modifications only later than it, as '
         'the statement\'s premise requires), a timezone (UTC, east, west, DST zones) and simulated clock steps from '
-        'microseconds to days; A runs `update --incremental`, B runs `update`; optionally a concurrent writer '
+        'microseconds to days, forwards and (clock fault) backwards past the previous TIMESTAMP; A runs `update --incremental`, B runs `update`; optionally a concurrent writer '
         'modifies one file right after A\'s running update closed it; non-trivial = at least one round modified '
         'a file; distinct = distinct seam event-log digest')
 PLAN = {'quick': {'n': 4000, 'budget_s': 90, 'block': 15},
@@ -74,6 +74,10 @@ def generate(rng, tier, idx):
                             'mt': [rng.choice(['older', 'equal', 'nss', 'newer']), rng.choice([1, 2, 600, 86400])]})
         rnd = {'ops': ops, 'advance_ns': rng.choice([1_000, 900_000_000, 1_000_000_000, 5_000_000_000,
                                                      3_600_000_000_000, 86_400_000_000_000])}
+        if rng.random() < 0.12:
+            # clock fault: the wall clock is stepped BACK (NTP correction, Manifest produced on a host whose clock runs
+            # ahead): the previous TIMESTAMP then lies in the future of the running update
+            rnd['advance_ns'] = -rng.choice([2_000_000_000, 3_600_000_000_000, 86_400_000_000_000, 7 * 86_400_000_000_000])
         if inter_round == ri and ri < n_rounds - 1 and live:
             rnd['interleave'] = rng.choice(live)
         rounds.append(rnd)
@@ -238,6 +242,9 @@ def execute(sc):
             recorded = sizes(A)
             for ri, rnd in enumerate(sc.get('rounds', [])):
                 clock.advance(rnd.get('advance_ns', 0))
+                if rnd.get('advance_ns', 0) < 0:
+                    counters['clock_stepped_back'] = counters.get('clock_stepped_back', 0) + 1
+                    seam.fired['clock-step-back'] = seam.fired.get('clock-step-back', 0) + 1
                 TA = top_timestamp(A)
                 T_ns = int(TA.timestamp()) * 10**9 if TA else None
                 for op in rnd.get('ops', []):
@@ -273,7 +280,9 @@ def execute(sc):
                         hook_scanstart(seam_, n, kind, rel)
                         if kind == 'close' and rel == _t and not fired['done']:
                             fired['done'] = True
-                            fired['t'] = seam_.clock.now_ns
+                            # the statement's premise: a same-size modification carries an mtime later than the previous
+                            # TIMESTAMP (after a backward clock step the writer's own clock would not give it one)
+                            fired['t'] = max(seam_.clock.now_ns, (T_ns or 0) + 10**9)
                             apply_op(A, {'k': 'same', 'p': inter, 'salt': 77}, fired['t'])
                     seam.hook = hook
                 now_before = clock.now_ns
@@ -296,8 +305,13 @@ def execute(sc):
                         violations.append(viol('incr.outcome-differs', 'round %d: incremental %s, full %s' % (ri, describe(rA), describe(rB)), sig='%s/%s' % (rA[0], rB[0])))
                     break
                 # TIMESTAMP never later than the moment scanning started
-                for name, root, ss in (('A', A, ssA), ('B', B, ssB)):
+                for name, root, ss, op_i in (('A', A, ssA, opi - 2), ('B', B, ssB, opi - 1)):
                     ts = top_timestamp(root)
+                    # only a TIMESTAMP this update wrote: after a backward clock step an update that changes nothing
+                    # leaves the old (now "future") line alone
+                    wrote_top = any(e[0] == op_i and e[2].split(' -> ')[-1] == name + '/Manifest' for e in seam.write_events)
+                    if not wrote_top:
+                        continue
                     if ts is not None and ss is not None and int(ts.timestamp()) * 10**9 > ss:
                         violations.append(viol('incr.timestamp-after-scan-start',
                                                'round %d replica %s: TIMESTAMP %s is later than the simulated clock when scanning started (%s)' % (
